@@ -15,6 +15,7 @@ recreate_network (instance attribute wrapping the bound method) and registers a 
 """
 from __future__ import annotations
 
+import copy
 import functools
 import json
 import random
@@ -613,10 +614,10 @@ def real_makers():
         "StochasticActorD": lambda: StochasticActor(vec, dis),
         "ContinuousQNetwork": lambda: ContinuousQNetwork(vec, box),
         "RainbowQNetwork": lambda: RainbowQNetwork(vec, dis, support=torch.linspace(-1, 1, 5), num_atoms=5),
-        "QNetworkCNN": lambda: QNetwork(img, dis, encoder_config=dict(cnn_cfg)),
-        "QNetworkDict": lambda: QNetwork(dct, dis, encoder_config=dict(mi_cfg)),
-        "StochasticActorDict": lambda: StochasticActor(dct, box, encoder_config=dict(mi_cfg)),
-        "EvolvableMultiInput": lambda: EvolvableMultiInput(dct, 8, **mi_cfg),
+        "QNetworkCNN": lambda: QNetwork(img, dis, encoder_config=copy.deepcopy(cnn_cfg)),
+        "QNetworkDict": lambda: QNetwork(dct, dis, encoder_config=copy.deepcopy(mi_cfg)),
+        "StochasticActorDict": lambda: StochasticActor(dct, box, encoder_config=copy.deepcopy(mi_cfg)),
+        "EvolvableMultiInput": lambda: EvolvableMultiInput(dct, 8, **copy.deepcopy(mi_cfg)),
         "EvolvableMLP": lambda: EvolvableMLP(4, 2, [8]),
         "EvolvableCNN": lambda: EvolvableCNN((3, 16, 16), 4, [8], [3], [1]),
     }
